@@ -538,41 +538,61 @@ def sim_batch_procs(ctx, vd, config, binary, scenario, count, procs=NCPU, extra=
 # properties
 # ---------------------------------------------------------------------------------------------
 def strace_eintr(ctx, vd, binary, scratch):
-    """Thorough: the real kernel read path of hash_file with EINTR injected into the N-th read(2) of the file
-    (deterministic: a counted syscall). The result must equal the un-injected one."""
+    """The real kernel path of hash_file with faults injected into counted real syscalls (deterministic: the N-th call):
+    EINTR into the N-th read(2) and into runs of consecutive reads (the result must equal the un-injected one), EIO into
+    the N-th read(2) and EACCES into openat(2) (the result must be that I/O error, never a hash)."""
     if not shutil.which("strace"):
         vd.extra["strace"] = "strace not available: real-syscall fault injection skipped"
         return
     path = os.path.join(scratch, "strace-target.bin")
     import random
     rnd = random.Random(vd.seed)
-    open(path, "wb").write(bytes(rnd.getrandbits(8) for _ in range(3 * (1 << 20) + 11)))
+    size = 3 * (1 << 20) + 11 + rnd.randrange(0, 5000)
+    open(path, "wb").write(rnd.randbytes(size))
     base = subprocess.run([binary, "hashfile-one", "--path", path], stdout=subprocess.PIPE, text=True, errors="replace").stdout.strip()
-    fired = 0
+    if not base.startswith("T1"):
+        raise HarnessError("strace: hashfile-one without injection printed `%s`" % base[:200])
+    fired = {"eintr": 0, "eintr_burst": 0, "eio": 0, "eacces_open": 0}
     checks = 0
     nviol = 0
-    for n in range(1, 7):
+    cases = [("eintr", "read", "inject=read:error=EINTR:when=%d" % n, None) for n in range(1, 7)]
+    cases += [("eintr_burst", "read", "inject=read:error=EINTR:when=%d..%d" % (a, b), None) for a, b in ((1, 3), (2, 40), (4, 5), (1, 200))]
+    cases += [("eio", "read", "inject=read:error=EIO:when=%d" % n, "os=Some(5)") for n in range(1, 6)]
+    cases += [("eacces_open", "openat", "inject=openat:error=EACCES", "os=Some(13)")]
+    for kind, sysc, inject, want_err in cases:
         log = os.path.join(scratch, "strace.log")
-        p = subprocess.run(["strace", "-o", log, "-P", path, "-e", "trace=read", "-e", "inject=read:error=EINTR:when=%d" % n,
+        if os.path.exists(log):
+            os.remove(log)
+        p = subprocess.run(["strace", "-o", log, "-P", path, "-e", "trace=" + sysc, "-e", inject,
                             binary, "hashfile-one", "--path", path], stdout=subprocess.PIPE, stderr=subprocess.PIPE, text=True, errors="replace")
         inj = open(log).read().count("(INJECTED)") if os.path.exists(log) else 0
         if p.returncode != 0 and inj == 0 and "ptrace" in p.stderr.lower():
             vd.extra["strace"] = "ptrace not permitted here: real-syscall fault injection skipped"
             return
-        fired += inj
         checks += 1
+        if not inj:
+            continue        # the file was read in fewer calls than N: nothing happened, nothing to judge
+        fired[kind] += inj
         got = p.stdout.strip()
-        if inj and got != base:
+        if p.returncode != 0:
+            bad = "the process died (exit %s): %s" % (p.returncode, p.stderr[-200:])
+        elif want_err is None:
+            bad = None if got == base else "hash_file printed `%s`, without injection `%s`" % (got, base)
+        else:
+            bad = None if (got.startswith("IOError(") and want_err in got) else "hash_file printed `%s`, expected an I/O error carrying %s" % (got, want_err)
+        if bad:
             nviol += 1
-            vd.add_violation("default", "c12strace", {"class": "eintr-on-real-read-changes-result", "index": n, "engine": "strace",
-                                                       "detail": "EINTR injected into real read(2) #%d of a 3 MiB file: hash_file printed `%s`, without injection `%s`" % (n, got, base),
-                                                       "history": {"when": n, "file_bytes": 3 * (1 << 20) + 11, "file_seed": vd.seed},
-                                                       "argv": ["strace", "-P", "<file>", "-e", "inject=read:error=EINTR:when=%d" % n, "sim", "hashfile-one"]})
+            vd.add_violation("default", "c12strace", {"class": "real-syscall-fault-%s" % kind, "index": checks, "engine": "strace",
+                                                       "detail": "%s into the real syscalls of hash_file on a %d-byte file: %s" % (inject, size, bad),
+                                                       "history": {"inject": inject, "syscall": sysc, "file_bytes": size, "file_seed": vd.seed},
+                                                       "argv": ["strace", "-P", "<file>", "-e", inject, "sim", "hashfile-one"]})
     os.remove(path)
     vd.reports.append(("default", {"scenario": "c12strace", "evaluations": checks, "distinct": checks, "distinct_nontrivial": checks,
-                                   "rule": "strace: one evaluation = hash_file on a real 3 MiB file with EINTR injected into the N-th real read(2), N = 1..6",
-                                   "counters": {"fault.eintr_real_syscall": fired}, "samples": [{"when": [1, 2, 3, 4, 5, 6]}], "violation_count": nviol, "wall_s": 0}))
-    ctx.log("strace: %d runs, %d injected EINTRs fired, %d violations" % (checks, fired, nviol))
+                                   "rule": "strace: one evaluation = hash_file on a real 3 MiB + k file with one fault injected into counted real syscalls: EINTR into read #N (N = 1..6) and into runs of up to 200 consecutive reads, EIO into read #N (N = 1..5), EACCES into openat",
+                                   "counters": {"fault.eintr_real_syscall": fired["eintr"] + fired["eintr_burst"], "fault.eintr_real_syscall_bursts": fired["eintr_burst"],
+                                                "fault.eio_real_syscall": fired["eio"], "fault.eacces_real_openat": fired["eacces_open"]},
+                                   "samples": [{"cases": [c[2] for c in cases]}], "violation_count": nviol, "wall_s": 0}))
+    ctx.log("strace: %d runs, injected faults fired %s, %d violations" % (checks, fired, nviol))
 
 
 def c12_alloc_faults(ctx, vd, binary, scratch, quick):
@@ -632,8 +652,8 @@ def check_C12(ctx, tier, seed):
     for j in big_jobs:
         vd.add("default", j.result())
     c12_alloc_faults(ctx, vd, build(ctx, "alloc_default"), os.path.join(scratch, "allocfault"), tier == "quick")
+    strace_eintr(ctx, vd, b, scratch)
     if tier != "quick":
-        strace_eintr(ctx, vd, b, scratch)
         # streams beyond the generator's limits through the stream helper itself (generated, no memory)
         jobs = [["bigreader", "--variant", v, "--pattern", pat, "--seed", seed + v, "--total", total]
                 for v, pat, total in ((1, "a40e", 4224281216), (0, "41", 4224281217), (4, "0102", (1 << 32) + 12345), (3, "a40e5566", 4224281215))]
@@ -643,10 +663,10 @@ def check_C12(ctx, tier, seed):
                 vd.add("default", rep)
         ctx.log("multi-GiB streams through hash_stream_for: %d in %.1fs" % (len(jobs), time.time() - t))
     vd.extra["components_real"] = ["tlsh::hash_stream / hash_stream_for::<T> (all five variants), hash_file / hash_file_for on real files (real kernel read path), tlsh::hash_buf_for (oracle side), Generator::update/finalize"]
-    vd.extra["components_stub"] = ["the reader (scripted SimReader: deliveries, EINTR, hard errors, early EOF, scribbling)", "thorough: strace injects EINTR into counted real read(2) calls of hash_file",
+    vd.extra["components_stub"] = ["the reader (scripted SimReader: deliveries, EINTR, hard errors, early EOF, scribbling)", "strace injects EINTR (single and runs), EIO into counted real read(2) calls and EACCES into openat(2) of hash_file",
                                      "the global allocator (SimAlloc) in the allocation-fault processes: refuses requests above a size threshold while the helper runs"]
     vd.assumptions = ["the oracle is the crate's own one-shot hash_buf_for on the delivered bytes (as the property states)",
-                      "seeded sampling of reader scripts, not enumeration", "hash_file's File is a concrete type: only EINTR is injected into its real syscalls (short reads there are up to the kernel)"]
+                      "seeded sampling of reader scripts, not enumeration", "hash_file's File is a concrete type: only errno faults (EINTR, EIO, EACCES) are injected into its real syscalls (short reads there are up to the kernel)"]
     return vd.finish()
 
 
